@@ -42,6 +42,12 @@ ASSUMPTIONS = [
     "ClockTimer (time.* in callbacks/timer.py) is allowed: the Timer only stores and prints elapsed time",
     "BLAS / OpenMP thread count fixed (OMP_NUM_THREADS=1, torch.set_num_threads(1)); nondeterminism across thread counts is not covered",
     "set_random_seed overwrites the state of torch's CPU generator (hypothesis of C14_seeded_histories_are_reproducible; exercised dynamically)",
+    "TRUST: the theorems of props/C14.v are about the generated effect graph; the semantic corollaries are conditional on bodies_ok "
+    "(= soundness of the translator for the Python sources), which is trusted (conservative, fail closed) and only sampled by the "
+    "dynamic part of this check",
+    "expected false alarms (by design, fail closed): any time.* / datetime.* outside callbacks/timer.py (e.g. a timestamp in Logger "
+    "output), os.environ reads, iteration over a set, a module outside the whitelist, or a construct the translator does not know "
+    "break the proof and are reported as VIOLATION ... no-failing-input-found unless the dynamic part exhibits irreproducibility",
 ]
 
 GEN_DIR = os.path.join(common.COQ, "generated")
@@ -123,7 +129,8 @@ def _coqchk(ctx):
 
 # =============================================================================== recording wrappers
 TORCH_FUNCS = ["randn", "rand", "randint", "randperm", "bernoulli", "normal", "multinomial", "poisson", "rand_like",
-               "randn_like", "randint_like", "manual_seed", "seed", "initial_seed", "get_rng_state", "set_rng_state"]
+               "randn_like", "randint_like", "initial_seed", "get_rng_state"]
+TORCH_RESEED_FUNCS = ["manual_seed", "seed", "set_rng_state"]
 TENSOR_METHODS = ["bernoulli_", "random_", "uniform_", "normal_", "exponential_", "geometric_", "cauchy_", "log_normal_",
                   "bernoulli", "multinomial"]
 NUMPY_FUNCS = ["seed", "rand", "randn", "randint", "random", "random_sample", "permutation", "shuffle", "choice", "uniform",
@@ -187,6 +194,13 @@ def _install_wrappers():
     import torch, numpy, random, time as _time
     for n in TORCH_FUNCS:
         _wrap(torch, n, "RngTorch", "torch." + n)
+    for n in TORCH_RESEED_FUNCS:
+        _wrap(torch, n, "RngReseed", "torch." + n)
+        _wrap(torch.random, n, "RngReseed", "torch.random." + n)
+    for n in ("manual_seed", "manual_seed_all", "seed", "seed_all", "set_rng_state", "set_rng_state_all"):
+        _wrap(torch.cuda, n, "RngReseed", "torch.cuda." + n)
+    for n in ("manual_seed", "seed", "set_state"):
+        _wrap(torch.Generator, n, "RngReseed", "Generator." + n)
     for n in TENSOR_METHODS:
         _wrap(torch.Tensor, n, "RngTorch", "Tensor." + n)
     _wrap(torch.distributions.Distribution, "sample", "RngTorch", "Distribution.sample")
@@ -246,6 +260,11 @@ def canon(x):
     return ["R", repr(x)[:80]]
 
 
+def rng_digest():
+    import torch
+    return hashlib.sha1(torch.get_rng_state().numpy().tobytes()).hexdigest()
+
+
 def param_bytes(state):
     import torch
     ps = []
@@ -260,9 +279,11 @@ def param_bytes(state):
 KINDS = ["positive", "complex", "density"]
 OBS = ["SigmaX", "SigmaY", "SigmaZ", "Neighbour", "NeighbourPBC", "SWAP", "Sum", "Prod", "Neg"]
 OP_WEIGHTS = {"reseed": 1.0, "reinit": 0.7, "sample": 3.0, "obs_sample": 1.5, "statistics": 2.0, "system_statistics": 1.0,
-              "fit": 2.5, "evaluate": 2.0, "metric": 2.0, "rotate": 1.5, "save": 1.0, "load": 0.7, "autoload": 0.5,
-              "gradient": 2.0}
-READ_ONLY_OPS = {"sample", "obs_sample", "statistics", "system_statistics", "evaluate", "metric", "rotate", "save", "gradient"}
+              "fit": 2.5, "evaluate": 2.5, "metric": 2.0, "rotate": 1.8, "save": 1.0, "load": 0.7, "autoload": 0.5,
+              "gradient": 2.0, "stats_from_samples": 1.0, "load_data": 0.5}
+READ_ONLY_OPS = {"sample", "obs_sample", "statistics", "system_statistics", "evaluate", "metric", "rotate", "save", "gradient",
+                 "stats_from_samples", "load_data"}
+SEED_FLAGS = [{"cpu": True, "gpu": False}, {"cpu": True, "gpu": True}, {}, {"cpu": True}, {"gpu": True}]
 RNG_OPS = {"sample", "obs_sample", "statistics", "system_statistics", "fit"}
 
 
@@ -285,6 +306,17 @@ def gen_op(rng, kind, nv, name, thorough):
     op = {"op": name}
     if name == "reseed":
         op["seed"] = int(rng.integers(0, 2 ** 31 - 1))
+        op["flags"] = SEED_FLAGS[int(rng.integers(0, len(SEED_FLAGS)))]
+    elif name == "stats_from_samples":
+        op["obs"] = [str(x) for x in rng.choice(OBS, size=int(rng.integers(1, 4)), replace=False)]
+        op["A"] = sorted(int(a) for a in rng.choice(nv, size=int(rng.integers(1, nv)), replace=False)) if nv > 1 else [0]
+        op["samples"] = _bits(rng, int(rng.integers(2, 12)), nv)
+        op["system"] = bool(rng.random() < 0.5)
+    elif name == "load_data":
+        n = int(rng.integers(3, 8))
+        op["samples"] = _bits(rng, n, nv)
+        op["bases"] = _bases(rng, n, nv, nz=1)
+        op["target_seed"] = int(rng.integers(0, 10 ** 6))
     elif name == "sample":
         op["k"] = int(rng.integers(1, 6))
         op["n"] = int(rng.integers(1, 40))
@@ -312,9 +344,13 @@ def gen_op(rng, kind, nv, name, thorough):
         op["optimizer"] = str(rng.choice(["SGD", "SGD", "Adam", "SGDm"]))
         op["time"] = bool(rng.random() < 0.3)
         op["callbacks"] = [str(c) for c in rng.choice(["none", "obs", "metric", "both"], size=1)]
+        op["extra_callbacks"] = sorted(str(c) for c in rng.choice(["saver", "saver_fn", "early", "logger", "lambda"],
+                                                                  size=int(rng.integers(0, 4)), replace=False))
         op["scheduler"] = bool(rng.random() < 0.2)
     elif name == "evaluate":
-        op["what"] = str(rng.choice(["probability", "psi_or_rho", "normalization", "amplitude_phase"]))
+        op["what"] = str(rng.choice(["probability", "psi_or_rho", "normalization", "amplitude_phase", "compute_normalization",
+                                     "subspace_vector", "rbm_level"]))
+        op["num"] = int(rng.integers(0, 2 ** nv))
     elif name == "metric":
         op["what"] = _STATE.get("metric_bias") or str(rng.choice(["fidelity", "KL", "NLL", "NLL_bases", "KL_bases"]))
         op["target_seed"] = int(rng.integers(0, 10 ** 6))
@@ -324,11 +360,12 @@ def gen_op(rng, kind, nv, name, thorough):
         op["samples"] = _bits(rng, n, nv)
         op["sample_bases"] = _bases(rng, n, nv, nz=1)
     elif name == "rotate":
-        op["what"] = str(rng.choice(["rotate_state", "inner_prod_or_probs"]))
+        op["what"] = str(rng.choice(["rotate_state", "inner_prod_or_probs", "explicit_state", "explicit_inner"]))
+        op["target_seed"] = int(rng.integers(0, 10 ** 6))
         op["basis"] = [str(c) for c in rng.choice(["X", "Y", "Z"], size=nv)]
         op["states"] = _bits(rng, int(rng.integers(1, 5)), nv)
     elif name == "gradient":
-        op["what"] = str(rng.choice(["gradient", "batch", "exact", "positive_phase"]))
+        op["what"] = str(rng.choice(["gradient", "batch", "exact", "positive_phase", "gradient_1d"]))
         n = int(rng.integers(3, 9))
         op["samples"] = _bits(rng, n, nv)
         op["neg"] = _bits(rng, int(rng.integers(2, 7)), nv)
@@ -346,7 +383,8 @@ def gen_history(rng, thorough, weights=None, kind=None):
     if kind == "density" and nv > 3:
         nv = 3
     nh = int(rng.integers(1, 5))
-    h = {"kind": kind, "nv": nv, "nh": nh, "na": int(rng.integers(1, 4)), "seed": int(rng.integers(0, 2 ** 31 - 1)), "ops": []}
+    h = {"kind": kind, "nv": nv, "nh": nh, "na": int(rng.integers(1, 4)), "seed": int(rng.integers(0, 2 ** 31 - 1)),
+         "seed_flags": SEED_FLAGS[int(rng.integers(0, len(SEED_FLAGS)))], "ops": []}
     names = list(weights)
     p = [weights[n] for n in names]
     tot = sum(p)
@@ -401,10 +439,17 @@ class Runner:
         self.hits = []              # per op: (entry qualified names, set of hits)
         self.saved = None
         self.nrng = 0
+        self.rng_states = []        # per op: digest of torch's CPU generator state after the op
+        self.raised = []            # (index, op, exception type) of operations that raised
 
     def perturb_foreign(self, i):
         """put numpy's and Python's global generators into a run-specific state and consume a run-specific amount."""
         import numpy as np
+        if i == 0:
+            # whatever state torch's generator was left in must not matter after seeding: start every run from another one
+            import torch
+            torch.manual_seed(1000003 * (self.perturb + 1) + 17)
+            torch.rand(1 + self.perturb % 3)
         for key in sorted(_STATE.get("env_keys", ())):          # environment variables the library was seen reading
             if self.perturb == 0:
                 os.environ.pop(key, None)
@@ -428,6 +473,7 @@ class Runner:
                 out = fn()
             except Exception as e:          # an exception is an output like any other (must be reproducible too)
                 out = ["EXC", type(e).__name__]
+                self.raised.append((len(self.hits), type(e).__name__, str(e)[:120]))
         finally:
             hits = _STATE["hits"]
             _STATE["hits"] = None
@@ -440,7 +486,7 @@ class Runner:
         h = self.h
         os.makedirs(self.workdir, exist_ok=True)
         self.perturb_foreign(0)
-        self.timed([qucumber.set_random_seed], lambda: qucumber.set_random_seed(h["seed"], cpu=True, gpu=False, quiet=True))
+        self.timed([qucumber.set_random_seed], lambda: qucumber.set_random_seed(h["seed"], quiet=True, **h.get("seed_flags", {"cpu": True, "gpu": False})))
         cls = {"positive": PositiveWaveFunction, "complex": ComplexWaveFunction, "density": DensityMatrix}[h["kind"]]
         if h["kind"] == "density":
             mk = lambda: cls(h["nv"], h["nh"], h["na"], gpu=False)
@@ -456,6 +502,7 @@ class Runner:
         self.st = st
         self.outputs.append(canon(None))
         self.params.append(param_bytes(st))
+        self.rng_states.append(rng_digest())
         for i, op in enumerate(h["ops"]):
             self.perturb_foreign(i + 1)
             before = param_bytes(st)
@@ -465,6 +512,7 @@ class Runner:
             self.outputs.append(canon(out))
             after = param_bytes(st)
             self.params.append(after)
+            self.rng_states.append(rng_digest())
             if op["op"] in READ_ONLY_OPS and after != before:
                 self.ro_changes.append((i, op["op"], op.get("what")))
         for key in _STATE.get("env_keys", ()):
@@ -484,7 +532,7 @@ class Runner:
         dbl = lambda x: torch.tensor(x, dtype=torch.double)
         is_wf = isinstance(st, WaveFunctionBase)
         if name == "reseed":
-            return [qucumber.set_random_seed], lambda: qucumber.set_random_seed(op["seed"], quiet=True)
+            return [qucumber.set_random_seed], lambda: qucumber.set_random_seed(op["seed"], quiet=True, **op.get("flags", {}))
         if name == "reinit":
             return [T.reinitialize_parameters], lambda: st.reinitialize_parameters()
         if name == "sample":
@@ -511,6 +559,24 @@ class Runner:
                 return [T.probability, T.generate_hilbert_space], lambda: st.probability(space, Z=st.normalization(space))
             if w == "normalization":
                 return [T.normalization], lambda: st.normalization(space)
+            if w == "compute_normalization":
+                return [T.compute_normalization], lambda: st.compute_normalization(space)
+            if w == "subspace_vector":
+                return [T.subspace_vector, T.generate_hilbert_space], lambda: [st.subspace_vector(op.get("num", 0)),
+                                                                               st.generate_hilbert_space(size=max(1, h["nv"] - 1))]
+            if w == "rbm_level":
+                rb = st.rbm_am
+                R = type(rb)
+                v1 = space[op.get("num", 0) % len(space)]
+                if h["kind"] == "density":
+                    return [R.effective_energy, R.partition, R.prob_h_given_v, R.effective_energy_gradient, R.gamma, R.mixing_term], \
+                        lambda: [rb.effective_energy(space), rb.effective_energy(v1), rb.partition(space), rb.prob_h_given_v(space),
+                                 rb.prob_a_given_v(v1), rb.effective_energy_gradient(space, reduce=False), rb.gamma(space, space),
+                                 rb.mixing_term(space), st.importance_sampling_weight(space, space.flip(0))]
+                return [R.effective_energy, R.partition, R.prob_h_given_v, R.prob_v_given_h, R.effective_energy_gradient], \
+                    lambda: [rb.effective_energy(space), rb.effective_energy(v1), rb.partition(space), rb.prob_h_given_v(space),
+                             rb.prob_v_given_h(rb.prob_h_given_v(v1).round()), rb.effective_energy_gradient(space, reduce=False),
+                             rb.effective_energy_gradient(v1), st.importance_sampling_weight(space, space.flip(0))]
             if w == "psi_or_rho":
                 if is_wf:
                     return [T.psi], lambda: st.psi(space)
@@ -530,6 +596,15 @@ class Runner:
                 if is_wf:
                     return [unitaries.rotate_psi], lambda: unitaries.rotate_psi(st, basis, space)
                 return [unitaries.rotate_rho], lambda: unitaries.rotate_rho(st, basis, space)
+            if op["what"] in ("explicit_state", "explicit_inner"):
+                tgt = self.target(op)
+                if op["what"] == "explicit_state":
+                    if is_wf:
+                        return [unitaries.rotate_psi], lambda: unitaries.rotate_psi(st, basis, space, psi=tgt)
+                    return [unitaries.rotate_rho], lambda: unitaries.rotate_rho(st, basis, space, rho=tgt)
+                if is_wf:
+                    return [unitaries.rotate_psi_inner_prod], lambda: unitaries.rotate_psi_inner_prod(st, basis, states, psi=tgt)
+                return [unitaries.rotate_rho_probs], lambda: unitaries.rotate_rho_probs(st, basis, states, rho=tgt)
             if h["kind"] == "positive":
                 return [unitaries._rotate_basis_state], lambda: list(unitaries._rotate_basis_state(st, basis, states, unitaries=unitaries.create_dict()))
             if is_wf:
@@ -541,6 +616,8 @@ class Runner:
             w = op["what"]
             if w == "gradient":
                 return [T.gradient], lambda: st.gradient(samples, bases)
+            if w == "gradient_1d":
+                return [T.gradient], lambda: st.gradient(samples[0], None if bases is None else bases[0])
             if w == "positive_phase":
                 return [T.positive_phase_gradients], lambda: st.positive_phase_gradients(samples, bases)
             if w == "batch":
@@ -549,6 +626,15 @@ class Runner:
             if h["kind"] == "positive":
                 return [T.compute_exact_grads], lambda: st.compute_exact_grads(samples, space)
             return [T.compute_exact_gradients], lambda: st.compute_exact_gradients(samples, space, bases)
+        if name == "stats_from_samples":
+            obs = [make_obs(o, op["A"]) for o in op["obs"]]
+            samples = dbl(op["samples"])
+            if op.get("system"):
+                sysm = System(*obs)
+                return [System.statistics_from_samples] + [type(o).apply for o in obs], lambda: sysm.statistics_from_samples(st, samples)
+            return [type(obs[0]).statistics_from_samples, type(obs[0]).apply], lambda: obs[0].statistics_from_samples(st, samples)
+        if name == "load_data":
+            return self.load_data(op, i)
         if name == "save":
             path = os.path.join(self.workdir, "state_%d.pt" % i)
 
@@ -568,6 +654,30 @@ class Runner:
                 return None
             return [T.autoload], do_autoload
         raise ValueError("unknown op " + name)
+
+    def load_data(self, op, i):
+        """qucumber.utils.data loaders on files written by the harness (numpy only, no global RNG)."""
+        import numpy as np
+        from qucumber.utils import data as qdata
+        d = os.path.join(self.workdir, "data_%d" % i)
+        os.makedirs(d, exist_ok=True)
+        fs = os.path.join(d, "samples.txt")
+        fb = os.path.join(d, "bases.txt")
+        np.savetxt(fs, np.array(op["samples"]), fmt="%d")
+        with open(fb, "w") as f:
+            for row in op["bases"]:
+                f.write(" ".join(row) + "\n")
+        tgt = self.target(op).numpy()
+        if self.h["kind"] == "density":
+            fr, fi = os.path.join(d, "re.txt"), os.path.join(d, "im.txt")
+            np.savetxt(fr, tgt[0])
+            np.savetxt(fi, tgt[1])
+            return [qdata.load_data_DM], lambda: qdata.load_data_DM(fs, fr, fi, fb, fb)
+        fp = os.path.join(d, "psi.txt")
+        np.savetxt(fp, tgt.T)
+        return [qdata.load_data, qdata.extract_refbasis_samples], lambda: [
+            qdata.load_data(fs, fp, fb, fb),
+            qdata.extract_refbasis_samples(__import__("torch").tensor(op["samples"], dtype=__import__("torch").double), np.array(op["bases"]))]
 
     def target(self, op):
         """a deterministic random target state (independent generator; never touches the global RNGs)."""
@@ -634,13 +744,37 @@ class Runner:
             e = MetricEvaluator(1, {"NLL": ts.NLL}, verbose=False, samples=data, space=st.generate_hilbert_space())
             cbs.append(e)
             evs.append(("metric", e))
+        from qucumber.callbacks import ModelSaver, EarlyStopping, Logger, LambdaCallback
+        extra = op.get("extra_callbacks", [])
+        log_lines, lam = [], []
+        tag = "fit_%d" % len(self.outputs)
+        if "saver" in extra:
+            cbs.append(ModelSaver(1, os.path.join(self.workdir, tag + "_ms"), "m{}.pt", save_initial=True, metadata={"tag": 1}))
+        if "saver_fn" in extra:
+            cbs.append(ModelSaver(1, os.path.join(self.workdir, tag + "_msf"), "f{}.pt", save_initial=False,
+                                  metadata=lambda s_, ep: {"epoch": ep}, metadata_only=bool(op["epochs"] % 2)))
+        if "early" in extra:
+            me = MetricEvaluator(1, {"NLL": ts.NLL}, verbose=False, samples=data, space=st.generate_hilbert_space())
+            cbs.append(me)
+            evs.append(("early_metric", me))
+            cbs.append(EarlyStopping(1, 1e-12, 1, me, "NLL", criterion="absolute"))
+        if "logger" in extra:
+            cbs.append(Logger(1, logger_fn=log_lines.append, note="c14"))
+        if "lambda" in extra:
+            cbs.append(LambdaCallback(on_epoch_end=lambda s_, ep: lam.append(["epoch", ep, param_bytes(s_)]),
+                                      on_batch_end=lambda s_, ep, b: lam.append(["batch", ep, b])))
         kw["callbacks"] = cbs
         import io, contextlib
-        with contextlib.redirect_stdout(io.StringIO()):
-            st.fit(data, **kw)
+        try:
+            with contextlib.redirect_stdout(io.StringIO()):
+                st.fit(data, **kw)
+        finally:
+            st.stop_training = False        # EarlyStopping may have set it; the next fit of the history starts afresh
         out = []
         for kind, e in evs:
             out.append([kind, [[ep, vals] for ep, vals in e.past_values]])
+        out.append(["log", log_lines])
+        out.append(["lambda", lam])
         return out
 
 
@@ -687,7 +821,7 @@ def op_label(h, idx):
     return "%d:%s%s" % (idx - 1, o["op"], (":" + o["what"]) if "what" in o else "")
 
 
-def check_history(ctx, h, subprocess_too=False, count=True):
+def check_history(ctx, h, subprocess_too=False, count=True, other_seed=True):
     """runs the oracle on one history; returns the number of new failures."""
     n0 = len(ctx.failures) + len(ctx.disagreements)
     model = _STATE["model"]
@@ -714,6 +848,27 @@ def check_history(ctx, h, subprocess_too=False, count=True):
     d = first_diff(a.params, b.params)
     ctx.require("identically seeded runs give bit-identical parameters (initialised / trained / loaded)", d is None,
                 dict(case, first_differing_operation=op_label(h, d)), "parameter digests differ")
+    d = first_diff(a.rng_states, b.rng_states)
+    ctx.require("identically seeded runs leave torch's generator in the same state (every continuation is reproducible)", d is None,
+                dict(case, first_differing_operation=op_label(h, d)), "generator state digests differ")
+    for (idx, exc, msg) in a.raised[:3]:
+        ctx.count("operation_raised")                  # never on the unchanged tree; such an operation is not counted as exercised
+        ctx.notes.append("operation raised %s (%s) in history %s" % (exc, msg, json.dumps(desc)))
+    _STATE.setdefault("entered", set()).update(n for (entries, _h) in a.hits for n in entries)
+    # ---- another seed: the generator state (hence every later draw) must depend on the seed after every operation
+    if other_seed:
+        h2 = dict(h, seed=(h["seed"] + 1 + h["seed"] % 7) % (2 ** 31 - 1),
+                  ops=[dict(o, seed=(o["seed"] + 3 + o["seed"] % 5) % (2 ** 31 - 1)) if o["op"] == "reseed" else o for o in h["ops"]])
+        c = Runner(h2, os.path.join(wd, "o"), perturb=0, record_hits=False).run()
+        same = [i for i, (x, y) in enumerate(zip(a.rng_states, c.rng_states)) if x == y]
+        ctx.require("a different seed leaves torch's generator in a different state after every operation (later draws differ)",
+                    not same, dict(case, other_seed=h2["seed"], first_differing_operation=op_label(h, same[0]) if same else None),
+                    "generator state identical for two different seeds")
+        big = [i for i, o in enumerate(h["ops"]) if o["op"] == "sample" and o["n"] * h["nv"] >= 64 and "init" not in o]
+        for i in big[:2]:
+            ctx.require("a different seed gives different Bernoulli draws (>= 64 outcomes)", a.outputs[i + 1] != c.outputs[i + 1],
+                        dict(case, other_seed=h2["seed"], operation=op_label(h, i + 1)), "samples identical")
+        ctx.traces += 1
     # ---- read-only operations leave the parameters untouched
     for r in (a, b):
         for (i, opn, what) in r.ro_changes[:1]:
@@ -868,6 +1023,16 @@ def run(ctx):
             break
     ctx.extra["histories"] = i
     ctx.extra["dynamic_s"] = round(time.time() - t0, 1)
+    # ---- informational: which public read-only roots of the table were entered directly by the grammar
+    model = _STATE["model"]
+    if model is not None:
+        by_id = {f["id"]: f["name"] for f in model["functions"]}
+        entered = _STATE.get("entered", set())
+        never = sorted(by_id[i] for k in ("sample", "statistics", "observable", "metric", "rotation", "save", "gradient", "eval", "data")
+                       for i in model["ops"][k] if by_id[i] not in entered)
+        ctx.extra["read_only_roots_entered_directly"] = len(entered)
+        ctx.extra["read_only_roots_only_reached_indirectly"] = never[:80]
+        ctx.extra["empty_operation_classes"] = sorted(k for k, v in model["ops"].items() if not v)
 
 
 def search(ctx, broken, budget):
@@ -913,7 +1078,7 @@ def shrink(ctx, rec):
         saved = (ctx.failures, ctx.disagreements, ctx.known_hits, ctx.evaluations, ctx.traces, dict(ctx.hist))
         ctx.failures, ctx.disagreements, ctx.known_hits = [], [], []
         try:
-            check_history(ctx, hh, subprocess_too=("PYTHONHASHSEED" in what), count=False)
+            check_history(ctx, hh, subprocess_too=("PYTHONHASHSEED" in what), count=False, other_seed=("different seed" in what))
             got = [f for f in ctx.failures if f["what"] == what]
         except Exception:
             got = []
